@@ -163,10 +163,23 @@ for set_type in (set, frozenset):
       unflatten_fn=lambda values, _, set_type=set_type: set_type(values),
       path_elements_fn=lambda x: tuple(SetElement() for _ in x))
 
+
+def _unflatten_bytes(values, unused_metadata) -> bytes:
+  try:
+    return values[0].encode('latin-1')
+  except UnicodeEncodeError:
+    # Documents written with the former 'raw_unicode_escape' encoding may hold
+    # code points above 255 (for bytes that contained escape-like sequences).
+    return values[0].encode('raw_unicode_escape')
+
+
+# Bytes are stored as the string with the same code points ('latin-1' maps
+# every byte to exactly one character and back, so this is lossless; a codec
+# that interprets escape sequences, such as 'raw_unicode_escape', is not).
 register_node_traverser(
     bytes,
-    flatten_fn=lambda x: ((x.decode('raw_unicode_escape'),), None),
-    unflatten_fn=lambda values, _: values[0].encode('raw_unicode_escape'),
+    flatten_fn=lambda x: ((x.decode('latin-1'),), None),
+    unflatten_fn=_unflatten_bytes,
     path_elements_fn=lambda x: (IdentityElement(),),
 )
 
